@@ -211,6 +211,10 @@ fn c14_tinylfu(shard: &mut Shard, counters: u64, seed: u64) {
                 fail(shard, &["C14"], "C14/estimate-under-counts".into(), format!("counters {}: hash {:#x} was recorded {} times in this window but its estimate is {}", counters, h, recorded, estimate), witness.clone());
                 return;
             }
+            if estimate < lfu.sketch_estimate(*h) {
+                fail(shard, &["C14"], "C14/estimate-below-the-sketch-minimum".into(), format!("counters {}: hash {:#x} has {} in every row of the sketch but its estimated frequency is {}", counters, h, lfu.sketch_estimate(*h), estimate), witness.clone());
+                return;
+            }
             if estimate > 16 {
                 fail(shard, &["C14"], "C14/estimate-above-cap".into(), format!("counters {}: estimate {} for hash {:#x}", counters, estimate, h), witness.clone());
                 return;
